@@ -236,16 +236,18 @@ def src_variant():
 
 # ------------------------------------------------------------------------------------------------ oracles
 
-def _shadow(ops, upto):
-    """(latest as delivered, index of the last delivery) before op `upto` — from the script alone"""
-    L, last = 0, None
-    for i, op in enumerate(ops[:upto]):
+def _shadow(s, upto):
+    """latestRound as the script has driven it before op `upto` (deliveries and stream failures that took effect)"""
+    L = 0
+    for op, out in list(zip(s.ops, s.impl))[:upto]:
         f = op.split()
-        if f[0] == "watch" and len(f) > 1 and f[1].isdigit() and int(f[1]) < 2**64:
-            L, last = int(f[1]), i
-        elif f[0] == "watchclose":
-            L, last = 0, i
-    return L, last
+        if f[0] == "watch" and out in ("ok", "gated"):
+            L = int(f[1])
+        elif f[0] == "watchclose" and out == "ok":
+            L = 0
+        elif f[0] == "race" and out.startswith("race"):
+            L += 1
+    return L
 
 
 def oracle_c01(s):
@@ -265,20 +267,20 @@ def oracle_c01(s):
             body = out.split()[1] if len(out.split()) > 1 else "?"
             if body == f"b{want}":
                 continue
-            # where was the request released: the last delivery before this answer
+            # the delivery that released the request: the last effective `watch` between its arrival and this answer
             rel = None
             for j in range(i, at, -1):
                 g = s.ops[j].split()
-                if g[0] in ("watch", "ungate", "race"):
+                if g[0] == "watch" and s.impl[j] in ("ok", "gated"):
                     rel = j
                     break
-            Lbefore, _ = _shadow(s.ops, rel) if rel is not None else (None, None)
-            closed_between = any(o.split()[0] == "watchclose" for o in s.ops[at:i])
+            n = int(s.ops[rel].split()[1]) if rel is not None else None
+            Lbefore = _shadow(s, rel) if rel is not None else None
+            closed_between = any(o.split()[0] == "watchclose" and x == "ok" for o, x in zip(s.ops[at:i], s.impl[at:i]))
             if body == "-":
-                n = int(s.ops[rel].split()[1]) if rel is not None and s.ops[rel].startswith("watch ") else None
                 sig = SIG_EMPTY if (Lbefore and n is not None and n != Lbefore + 1) else "httpw|empty-200|other"
                 return i, "empty-200", f"the request for round {want} was answered 200 with an EMPTY body", sig
-            sig = SIG_WRONG if (Lbefore == 0 and closed_between) else "httpw|wrong-round|other"
+            sig = SIG_WRONG if (rel is not None and Lbefore == 0 and closed_between) else "httpw|wrong-round|other"
             return i, "wrong-round", f"the request for round {want} was answered 200 with {body}: not the beacon of round {want}", sig
     return None
 
